@@ -4,6 +4,7 @@ Nothing in /repo is modified: VExecutor / VController / VConnection only
 override the documented simulator extension points."""
 from __future__ import annotations
 
+import os
 import re
 from typing import Any, Dict, List, Optional, Tuple
 
@@ -24,9 +25,28 @@ class ScriptExhausted(Exception):
     pass
 
 
+from netqasm.logging.output import InstrLogger as _InstrLogger  # noqa: E402
+
+
+class VInstrLogger(_InstrLogger):
+    """the package's instruction logger with the three simulator hooks filled in (no quantum state is kept)"""
+
+    @classmethod
+    def _get_qubit_states(cls, subroutine_id, qubit_ids):
+        return None
+
+    @classmethod
+    def _get_qubit_groups(cls):
+        return None
+
+    def _get_node_name(self):
+        return "verif"
+
+
 class VExecutor(Executor):
     """Base executor + scripted measurement outcomes + a gate log + one yield
     per executed instruction (so that the rig can step and snapshot)."""
+    instr_logger_class = VInstrLogger
 
     def __init__(self, name="verif", node_id=0, meas_script=None, instr_log_dir=None, **kwargs):
         super().__init__(name=name, instr_log_dir=instr_log_dir)
@@ -109,9 +129,10 @@ class Runaway(RuntimeError):
     pass
 
 
-def fresh_executor(name="verif", node_id=0, meas_script=None) -> VExecutor:
+def fresh_executor(name="verif", node_id=0, meas_script=None, instr_log_dir=None) -> VExecutor:
     SharedMemoryManager.reset_memories()
-    return VExecutor(name=name, node_id=node_id, meas_script=meas_script)
+    Executor._INSTR_LOGGERS.clear()          # (the package keeps one logger per node name for the whole process, bound to its first executor)
+    return VExecutor(name=name, node_id=node_id, meas_script=meas_script, instr_log_dir=instr_log_dir)
 
 
 # --- projection -----------------------------------------------------------
@@ -256,12 +277,36 @@ class RecordingStack(BaseNetworkStack):
         return epr_socket_id
 
 
+_LOGDIR = None
+
+
+def _instr_log_dir() -> str:
+    """one scratch directory per process for the package's instruction logs, removed when the process ends"""
+    global _LOGDIR
+    if _LOGDIR is None:
+        import tempfile
+        base = os.environ.get("VERIF_INSTRLOG_DIR")        # set by the engine: inside the check's own scratch directory
+        if base:
+            os.makedirs(base, exist_ok=True)
+            _LOGDIR = tempfile.mkdtemp(prefix="p", dir=base)
+        else:
+            import atexit
+            import shutil
+            _LOGDIR = tempfile.mkdtemp(prefix="verif_instrlog_")
+            atexit.register(shutil.rmtree, _LOGDIR, True)
+    return _LOGDIR
+
+
 class EprRun:
     """One scenario of harness/epr_scn.py on the real executor, driven action by action."""
 
     def __init__(self, scn):
         self.scn = scn
-        self.ex = fresh_executor(node_id=0)
+        self._logdir = None
+        if scn.get("instr_log"):
+            # the package's instruction logger (documented to be side-effect free) is switched on
+            self._logdir = _instr_log_dir()
+        self.ex = fresh_executor(node_id=0, instr_log_dir=self._logdir)
         self.stack = RecordingStack()
         self.stack.reject_over = scn.get("reject_over")
         self.pending_recover = False
